@@ -245,6 +245,12 @@ def safe_repr(x) -> str:
 
 
 def atom_token(x) -> str:
+  if isinstance(x, enum.Enum):
+    return f'enum:{type(x).__name__}.{x.name}'
+  if type(x) not in (bool, int, float, complex, str, bytes) and isinstance(x, (int, float, complex, str, bytes)):
+    # a user subclass of a primitive keeps its type in the token
+    base = next(t for t in (bool, int, float, complex, str, bytes) if isinstance(x, t))
+    return f'{type(x).__name__}({atom_token(base(x))})'
   if isinstance(x, bool):
     return f'bool:{x}'
   if isinstance(x, int):
